@@ -271,11 +271,34 @@ func runC13(ctx *Ctx) error {
 	for i := 0; i < nops; i++ {
 		ops = append(ops, c13GenOp(ctx.Rng.Fork(), i%2 == 1))
 	}
+	// fixed shapes: one response with two (three) JSON media types that all have a schema, next to a default
+	js := func(ct string) c13Content { return c13Content{CT: ct, IsJSON: true, HasSchema: true} }
+	ops[0] = []c13Resp{{Name: "200", Contents: []c13Content{js("application/json"), js("application/vnd.api+json")}}, {Name: "default", Contents: []c13Content{js("application/json")}}}
+	if len(ops) > 2 {
+		ops[2] = []c13Resp{{Name: "2XX", Contents: []c13Content{js("application/hal+json"), js("application/json"), js("application/problem+json")}}, {Name: "404", Contents: []c13Content{js("application/json"), js("application/problem+json")}}}
+	}
 	doc := c13Doc(ops)
 	// ---- CORR on the emitted switch ----
 	spec, err := loadDoc(doc)
 	if err != nil {
 		return err
+	}
+	// an earlier generation of the process had operations with the same ids and other responses: the client of this
+	// document is made from this document's responses
+	{
+		var decoy [][]c13Resp
+		for range ops {
+			decoy = append(decoy, []c13Resp{{Name: "418", Contents: []c13Content{{CT: "application/json", IsJSON: true, HasSchema: true}}}})
+		}
+		if spec, err := loadDoc(c13Doc(decoy)); err == nil {
+			var dc codegen.Configuration
+			dc.Generate.Client, dc.Generate.Models = true, true
+			dc.PackageName = "decoy"
+			if _, gerr := generate(spec, dc); gerr != nil {
+				ctx.Res.Count("decoy-generation-failed:" + errorClass(firstLine(gerr.Error())))
+			}
+			ctx.Res.Count("generation-with-the-same-operation-ids-first")
+		}
 	}
 	codegen.VerifSetOptions(codegen.Configuration{})
 	codegen.SetGlobalStateSpec(spec)
